@@ -1262,6 +1262,7 @@ func (s *Server) processPubrec(cl *Client, pk packets.Packet) error {
 
 	if pk.ReasonCode >= packets.ErrUnspecifiedError.Code || !pk.ReasonCodeValid() { // [MQTT-4.3.3-4]
 		if ok := cl.State.Inflight.Delete(pk.PacketID); ok {
+			cl.State.Inflight.IncreaseSendQuota() // the exchange ends here, so its unit of send quota returns [MQTT5 Section 4.9]
 			atomic.AddInt64(&s.Info.Inflight, -1)
 		}
 		cl.ops.hooks.OnQosDropped(cl, pk)
